@@ -246,7 +246,9 @@ class CheckC10(core.Check):
         for L in ([0, 1, 15, 16, 17, 31, 32, 33, 47, 48, 49, 64, 65, 66, 80, 81, 82, 96, 97, 113, 129, 200] if not getattr(self, "_tiny", False) else [0, 31, 32, 48, 49]):
             c.op("hs_read", r, msg="zero:%d" % L, buf=1000)
             c.op("hs_read", r, msg="gen:%d:g%d" % (L, L), buf=rnd.choice([0, 1000]))
-        for L in (BIG_LENS if not getattr(self, "_tiny", False) else [65535, 65536]):
+        if getattr(self, "_tiny", False):
+            c.op("hs_read", r, msg="zero:65536", buf=100)
+        for L in (BIG_LENS if not getattr(self, "_tiny", False) else []):
             c.op("hs_read", r, msg="gen:%d:G" % L, buf=70000)
             c.op("hs_read", r, msg="$g~ext:zero:%d" % (L - total), buf=70000)
         for bit in rnd.sample(range(total * 8), min(16, total * 8)) if total else []:
@@ -311,15 +313,15 @@ class CheckC10(core.Check):
                 for pl in (0, 1, 17):
                     kw = {"n": rnd.choice(nonces)} if stateless else {}
                     c.op(wop, p, pay="gen:%d:t" % pl, buf=L, **kw)
-            for pl, L in [(65519, 65535), (65519, 65534), (65520, 65536), (65520, 70000), (65535, 70000), (65536, 70000), (70000, 70016), (70000, 140000)]:
+            for pl, L in ([(65519, 65535), (65519, 65534), (65520, 65536), (65520, 70000), (65535, 70000), (65536, 70000), (70000, 70016), (70000, 140000)] if not getattr(self, "_tiny", False) else []):
                 kw = {"n": rnd.choice(nonces)} if stateless else {}
                 c.op(wop, p, pay="gen:%d:t" % pl, buf=L, **kw)
             kw = {"n": 3} if stateless else {}
             c.op(wop, p, pay="gen:20:t", buf=100, out="g" + p, **kw)
-            for L in (list(range(0, 40)) + [64, 100, 200] + BIG_LENS if not getattr(self, "_tiny", False) else [0, 15, 16, 17, 65536]):
+            for L in (list(range(0, 40)) + [64, 100, 200] + BIG_LENS if not getattr(self, "_tiny", False) else [0, 15, 16, 17]):
                 kw = {"n": rnd.choice(nonces)} if stateless else {}
-                c.op(rop, q, msg="gen:%d:x" % L, buf=rnd.choice([0, 1, L, 70000]), **kw)
-                c.op(rop, q, msg="zero:%d" % L, buf=70000, **kw)
+                c.op(rop, q, msg="gen:%d:x" % L, buf=rnd.choice([0, 1, L, 70000] if not getattr(self, "_tiny", False) else [0, 1, L, 100]), **kw)
+                c.op(rop, q, msg="zero:%d" % L, buf=70000 if not getattr(self, "_tiny", False) else 100, **kw)
             for t in (range(0, 37) if not getattr(self, "_tiny", False) else (0, 15, 16, 35)):
                 kw = {"n": 3} if stateless else {}
                 c.op(rop, q, msg="$g%s~trunc:%d" % (p, t), buf=rnd.choice([0, 4, 20, 100]), **kw)
